@@ -592,5 +592,5 @@ func c17Body(t *testing.T, unit string, seqQuick, seqThorough, workersQuick, wor
 	}
 }
 
-func TestVerifC17(t *testing.T)     { c17Body(t, "crash", 12, 170, 6, 10) }
+func TestVerifC17(t *testing.T)     { c17Body(t, "crash", 12, 230, 6, 10) }
 func TestVerifC17Race(t *testing.T) { c17Body(t, "crash-race", 3, 24, 3, 6) }
